@@ -147,6 +147,7 @@ func c47(c *Ctx) {
 						}
 					} else if c.Expect(inv(v), r, f, "range:result-is-invert-or-not-invert", "unexpected result shape in the range matcher") {
 						c.Unreachable(r, "range:out-of-range-arm-excludes-in-range", in...)
+						c.EnteredOnlyWhen(r.Block(), "range:no-match-only-when-unparsable-or-outside-[start,end)", NotNil(perr), Cmp(num, token.LSS, FieldLoad(fieldOf(h.typ, "start"))), Cmp(num, token.GEQ, FieldLoad(fieldOf(h.typ, "end"))))
 					}
 					continue
 				}
@@ -353,6 +354,41 @@ func c47(c *Ctx) {
 				}
 			}
 			c.Expect(nst == 1, nil, f, h.fn+":one-byte-write", "expected exactly one byte write in the ASCII fold")
+			// complement: a byte is skipped (the scan moves on without the write / without starting the copy) only outside [lo,hi]
+			nSkip := 0
+			for _, b := range f.Blocks {
+				i, ok := b.Instrs[len(b.Instrs)-1].(*ssa.If)
+				if !ok {
+					continue
+				}
+				bo, ok := i.Cond.(*ssa.BinOp)
+				if !ok {
+					continue
+				}
+				isByte := func(v ssa.Value) bool {
+					t, ok := v.Type().Underlying().(*types.Basic)
+					return ok && t.Kind() == types.Uint8
+				}
+				if !(isByte(bo.X) && isByte(bo.Y)) {
+					continue
+				}
+				// the byte under test
+				var ch ssa.Value = bo.X
+				if constOf(bo.X) != nil {
+					ch = bo.Y
+				}
+				isCh := func(v ssa.Value) bool { return v == ch }
+				for _, s := range b.Succs {
+					// the skip arm: a successor that is the loop's post/increment block (does not dominate the write or the copy)
+					if len(s.Preds) < 2 {
+						continue
+					}
+					nSkip++
+					c.EnteredOnlyWhenExcept(s, h.fn+":byte-skipped-only-outside-the-letter-range", blockHasIndexStore, CmpInt(isCh, token.LSS, h.lo), CmpInt(isCh, token.GTR, h.hi))
+				}
+			}
+			c.Expect(nSkip >= 2, nil, f, h.fn+":skip-arms-found", "the scan's skip arms were not recognised")
+			c.BoundsSafe(h.pkg, f)
 			for _, r := range returnsOf(f) {
 				v := r.Results[0]
 				c.Expect(ParamV("s")(v) || DataDep(ParamV("s"))(v), r, f, h.fn+":returns-input-or-copy", "unexpected return")
@@ -423,4 +459,16 @@ func callArgs(cm CM, args ...VM) VM {
 		}
 		return true
 	}
+}
+
+// blockHasIndexStore: b stores into an element of a slice/array.
+func blockHasIndexStore(b *ssa.BasicBlock) bool {
+	for _, in := range b.Instrs {
+		if st, ok := in.(*ssa.Store); ok {
+			if _, isIdx := st.Addr.(*ssa.IndexAddr); isIdx {
+				return true
+			}
+		}
+	}
+	return false
 }
